@@ -24,7 +24,8 @@ FAMILIES = {
     "unclosed <b a=\"": lambda n: "<b a=\"" * n, "unclosed [http://x ": lambda n: "[http://x " * n,
     "unclosed table cells": lambda n: "{|\n|" + "a||" * n, "unclosed <ref>": lambda n: "<ref>" * n,
     "unclosed {{a|b={{": lambda n: "{{a|b={{" * n, "unclosed ==": lambda n: "== a\n" * n, "unclosed <b ": lambda n: "<b " * n,
-    "unclosed </": lambda n: "</" * n, "unclosed {{a|[[": lambda n: "{{a|[[" * n,
+    "unclosed </": lambda n: "</" * n, "unclosed {{a|[[": lambda n: "{{a|[[" * n, "unclosed [[http://a ": lambda n: "[[http://a " * n,
+    "unclosed [[//a b": lambda n: "[[//a b" * n, "unclosed {{a|[[http://b ": lambda n: "{{a|[[http://b " * n,
     # crossed
     "crossed {{[[ }}]]": lambda n: "{{[[" * n + "}}]]" * n, "crossed <b>''": lambda n: "<b>''" * n + "</b>''" * n,
     "crossed {{<b> }}</b>": lambda n: "{{<b>" * n + "}}</b>" * n, "crossed [[{{ ]]}}": lambda n: "[[{{" * n + "]]}}" * n,
@@ -52,6 +53,28 @@ FAMILIES = {
 
 FRAME_LIMIT = 420          # Python frames while tokenizing: about 3 per open stack (MAX_DEPTH = 100) + harness
 TREE_LIMIT = 210           # nesting of the tree: at most 2 levels per open stack
+OPENERS = ["{{", "{{{", "[[", "[", "<b>", "''", "'''", "{|\n|", "[http://a ", "[[http://a ", "[[//a b", "<ref>", "{{a|", "[[a|", "== ", "<!--", "&#",
+           "<b a=\"", "[//a ", "http://a ", "{{a|b=", "<br ", "</", "\n*", "{{{a|", "<nowiki>", "<pre a=\"", "\n;"]
+
+
+def family(name):
+    """a size -> text function for a catalogue name or for 'pair <i> <j>' (two openers alternating, never closed)"""
+    if name.startswith("pair "):
+        _p, i, j = name.split()
+        o1, o2 = OPENERS[int(i)], OPENERS[int(j)]
+        return lambda n: (o1 + o2) * n
+    return FAMILIES[name]
+
+
+def sizes(maxn):
+    out = [8, 12, 16, 20, 24, 28, 32, 48]
+    n = 64
+    while n <= maxn:
+        out.append(n)
+        n *= 2
+    return [x for x in out if x <= maxn]
+
+
 PY_BUDGET = 2_500_000      # work units per run (about 2-3 s)
 C_BUDGET_S = 1.5
 
@@ -106,11 +129,10 @@ def family_run(items):
     import tokharness
     st = tokharness.setup()
     name, maxn, tier = items[0]
-    fam = FAMILIES[name]
+    fam = family(name)
     rec = {"name": name, "py": [], "c": [], "fail": None, "depth": 0}
     # ---- Python: deterministic work
-    n = 8
-    while n <= maxn:
+    for n in sizes(maxn):
         text = fam(n)
         try:
             toks, counts = py_run(text)
@@ -137,12 +159,10 @@ def family_run(items):
             break
         if counts["work"] > PY_BUDGET:
             break
-        n *= 2
     # ---- C: CPU time
     if st["c"] is not None and rec["fail"] is None:
-        n = 8
         cmax = maxn * (8 if tier == "quick" else 32)
-        while n <= cmax:
+        for n in sizes(cmax):
             text = fam(n)
             t0 = time.process_time()
             try:
@@ -164,7 +184,6 @@ def family_run(items):
                     break
             if dt > C_BUDGET_S:
                 break
-            n *= 2
     return [rec]
 
 
@@ -177,7 +196,7 @@ def judge(rec):
             probs.append("Python work %d at %d characters exceeds the quadratic envelope 4c^2+200c+2000" % (w, chars))
             break
     for (n1, _l1, w1, d1), (n2, _l2, w2, d2) in list(zip(py, py[1:]))[-1:]:
-        if n1 >= 64 and w1 > 0:
+        if n1 >= 64 and w1 > 0 and n2 == 2 * n1:
             e = math.log2(w2 / w1)
             if e > 2.7:
                 probs.append("Python work grows by 2^%.2f from n=%d to n=%d (%d -> %d units)" % (e, n1, n2, w1, w2))
@@ -190,7 +209,7 @@ def judge(rec):
             probs.append("C tokenizer: %.2f s CPU at %d characters exceeds the quadratic envelope" % (t, chars))
             break
     for (n1, _l1, t1), (n2, _l2, t2) in list(zip(c, c[1:]))[-1:]:
-        if t1 > 0.03:
+        if t1 > 0.03 and n2 == 2 * n1:
             e = math.log2(t2 / t1)
             if e > 2.9:
                 probs.append("C time grows by 2^%.2f from n=%d to n=%d (%.3fs -> %.3fs)" % (e, n1, n2, t1, t2))
@@ -205,7 +224,12 @@ def run(tier, seed):
     import tokharness
     tokharness.setup()
     maxn = 4096 if tier == "quick" else 65536
-    jobs = [(name, maxn, tier) for name in sorted(FAMILIES)]
+    import random
+    rng = random.Random(seed * 31 + 5)
+    pairs = [(i, j) for i in range(len(OPENERS)) for j in range(len(OPENERS)) if i != j]
+    if tier == "quick":
+        pairs = rng.sample(pairs, 48)
+    jobs = [(name, maxn, tier) for name in sorted(FAMILIES)] + [("pair %d %d" % p, maxn, tier) for p in pairs]
     res = vlib.robust_map(family_run, jobs, chunk=1, timeout=300 if tier == "quick" else 1800, procs=14)
     table = {}
     nontrivial = 0
@@ -226,9 +250,10 @@ def run(tier, seed):
         table[rec["name"]] = {"python(n,chars,work,depth)": rec["py"][-3:], "c(n,chars,cpu_s)": [(n, l, round(t, 4)) for n, l, t in rec["c"][-3:]],
                               "tree_depth": rec["depth"]}
     c.cov["distinct_nontrivial"] = nontrivial
-    c.cov["rule"] = ("%d size-parameterised families (unclosed, crossed, properly nested openers of every construct kind; repeated delimiters) at "
-                     "doubling sizes n = 8, 16, ... up to %d units (Python: until %d work units; C: until %.1f s CPU); non-trivial = family "
-                     "measured at n >= 64" % (len(FAMILIES), maxn, PY_BUDGET, C_BUDGET_S))
+    c.cov["rule"] = ("%d size-parameterised families (unclosed, crossed, properly nested openers of every construct kind; repeated delimiters; "
+                     "pairs of alternating unclosed openers out of 28 - 48 random pairs in the quick tier, all 756 in the thorough tier) at "
+                     "sizes n = 8, 12, ..., 32, 48, 64, then doubling, up to %d units (Python: until %d work units; C: until %.1f s CPU); non-trivial = family "
+                     "measured at n >= 64" % (len(jobs), maxn, PY_BUDGET, C_BUDGET_S))
     c.cov["samples"] = [{"family": k, **v} for k, v in list(table.items())[:4]]
     c.notes["families"] = table
     c.assumptions += ["no complexity bound is proved; growth is judged on successive doublings (Python: deterministic work count = _read calls + pushes)",
